@@ -8,6 +8,7 @@ import (
 	"sort"
 	"strings"
 	"sync"
+	"sync/atomic"
 	"time"
 
 	plrt "github.com/GuanceCloud/platypus/pkg/engine/runtime"
@@ -40,6 +41,8 @@ var c16Sources = map[string]string{
 }
 
 var c16ParseSrc = "a = [1, 2, {\"k\": `q r`}]\nif a[0] == 1 && !b { f(a.b, x=1) } elif c { for i in a { break } } else { s = \"\\x41\\u00e9\" + 'b' + \"\"\"m\"\"\" }\nx = a[1:2:1]\nIf TRUE { y = Nil } ELIF False { Continue } Else { For q IN a { Break } }\n"
+var c16Fresh int64
+
 var c16BadSrc = "a = (1 +\n\"unterminated\nb = -0x\n"
 
 func c16Point(slot int) PointSpec {
@@ -86,7 +89,23 @@ func c16Ops() []c16Op {
 		ok, errs := drv.Load(other)
 		return fmt.Sprintf("loaded=%d errors=%d", len(ok), len(errs))
 	}}
-	return []c16Op{parseOp("valid", c16ParseSrc), parseOp("bad", c16BadSrc), loadOther, runOp("plain.p"), runOp("grok.p"), runOp("use.p"), runOp("loop.p"), runOp("all.p")}
+	// a deployment whose pattern texts nobody has seen before (every call makes new ones): whatever the
+	// implementation memoises by text gets a new entry while other goroutines look theirs up
+	loadFresh := c16Op{Name: "loadrun(never-seen pattern texts)", Do: func(env *c16Env, slot int) (out string) {
+		n := atomic.AddInt64(&c16Fresh, 1)
+		src := fmt.Sprintf("add_pattern(\"w%d\", \"[a-z]+\")\nok = grok(_, \"%%{w%d:word} %%{INT:n%d:int}\")\nreplace(message, \"l{%d}o|never%dseen\", \"L\")\ndefault_time(ts, \"Etc/GMT-%d\")\nIF ok { p(word) } ELSE { p(0) }\n", n, n, n%7, 1+n%3, n, 1+n%12)
+		ok, errs := drv.Load(map[string]string{"fresh.p": src})
+		if len(errs) > 0 {
+			return fmt.Sprintf("load errors: %v", errs)
+		}
+		pt := c16Point(slot).real().Build()
+		res := drv.RunConcurrent(ok["fresh.p"], pt, nil)
+		if res.Panic != "" {
+			return "PANIC " + res.Panic + "\n" + res.Stack
+		}
+		return fmt.Sprintf("trace=%v err=%v", res.Trace, res.Err)
+	}}
+	return []c16Op{parseOp("valid", c16ParseSrc), parseOp("bad", c16BadSrc), loadOther, loadFresh, runOp("plain.p"), runOp("grok.p"), runOp("use.p"), runOp("loop.p"), runOp("all.p")}
 }
 
 func c16Load() (*c16Env, error) {
